@@ -39,6 +39,8 @@ type NewVal struct {
 	U64 uint64 `json:"u64,omitempty"`
 	Bin []byte `json:"bin,omitempty"`
 	Msg []byte `json:"msg,omitempty"`
+	// Whole: a whole repeated / map field as it is on the wire (the encoding of a message of the parent's type that holds only this field)
+	Whole []byte `json:"whole,omitempty"`
 }
 
 type Op struct {
@@ -190,7 +192,24 @@ func elemFD(t target) protoreflect.FieldDescriptor {
 	return t.fd
 }
 
+var dtypeOfKind = map[protoreflect.Kind]dproto.Type{
+	protoreflect.BoolKind: dproto.BOOL, protoreflect.EnumKind: dproto.ENUM, protoreflect.Int32Kind: dproto.INT32, protoreflect.Sint32Kind: dproto.SINT32,
+	protoreflect.Uint32Kind: dproto.UINT32, protoreflect.Int64Kind: dproto.INT64, protoreflect.Sint64Kind: dproto.SINT64, protoreflect.Uint64Kind: dproto.UINT64,
+	protoreflect.Sfixed32Kind: dproto.SFIX32, protoreflect.Fixed32Kind: dproto.FIX32, protoreflect.FloatKind: dproto.FLOAT, protoreflect.Sfixed64Kind: dproto.SFIX64,
+	protoreflect.Fixed64Kind: dproto.FIX64, protoreflect.DoubleKind: dproto.DOUBLE, protoreflect.StringKind: dproto.STRING, protoreflect.BytesKind: dproto.BYTE,
+	protoreflect.MessageKind: dproto.MESSAGE,
+}
+
+func isWhole(t target) bool { return t.kind == "field" && (t.fd.IsList() || t.fd.IsMap()) }
+
 func modelValue(t target, nv NewVal) (protoreflect.Value, error) {
+	if isWhole(t) {
+		tmp := dynamicpb.NewMessage(t.fd.ContainingMessage())
+		if err := proto.Unmarshal(nv.Whole, tmp); err != nil {
+			return protoreflect.Value{}, err
+		}
+		return tmp.Get(t.fd), nil
+	}
 	fd := elemFD(t)
 	if fd.Kind() == protoreflect.MessageKind {
 		m := dynamicpb.NewMessage(fd.Message())
@@ -204,6 +223,13 @@ func modelValue(t target, nv NewVal) (protoreflect.Value, error) {
 
 // sutNode builds the replacement node for dynamicgo.
 func sutNode(t target, nv NewVal) generic.Node {
+	if isWhole(t) {
+		raw := append(make([]byte, 0, len(nv.Whole)+16), nv.Whole...)
+		if t.fd.IsMap() {
+			return generic.NewComplexNode(dproto.MAP, dtypeOfKind[t.fd.MapValue().Kind()], dtypeOfKind[t.fd.MapKey().Kind()], raw)
+		}
+		return generic.NewComplexNode(dproto.LIST, dtypeOfKind[t.fd.Kind()], dproto.UNKNOWN, raw)
+	}
 	fd := elemFD(t)
 	u := nv.U64
 	switch fd.Kind() {
@@ -731,9 +757,7 @@ func positions(m protoreflect.Message, prefix []Step, depth int, out *[]pos) {
 					positions(l.Get(j).Message(), p, depth+1, out)
 				}
 			}
-			if l.Len() > 0 {
-				*out = append(*out, pos{fs, target{parent: m, fd: fd, kind: "field", ok: true, exists: true}})
-			}
+			*out = append(*out, pos{fs, target{parent: m, fd: fd, kind: "field", ok: true, exists: l.Len() > 0}})
 		case fd.IsMap():
 			mp := m.Get(fd).Map()
 			var keys []protoreflect.MapKey
@@ -758,7 +782,9 @@ func positions(m protoreflect.Message, prefix []Step, depth int, out *[]pos) {
 				p := append(append([]Step{}, fs...), keyStep(fd, nk))
 				*out = append(*out, pos{p, target{parent: m, fd: fd, kind: "entry", key: nk, ok: true, exists: false}})
 			}
-			if mp.Len() > 0 {
+			if supportedMapKey(fd) {
+				*out = append(*out, pos{fs, target{parent: m, fd: fd, kind: "field", ok: true, exists: mp.Len() > 0}})
+			} else if mp.Len() > 0 {
 				*out = append(*out, pos{fs, target{parent: m, fd: fd, kind: "field", ok: true, exists: true}})
 			}
 		default:
@@ -845,7 +871,21 @@ func genOps(t *rapid.T, md protoreflect.MessageDescriptor, msg []byte) []Op {
 		}
 		op := Op{Path: p.path}
 		whole := p.t.kind == "field" && (p.t.fd.IsList() || p.t.fd.IsMap())
-		if whole || (p.t.exists && rapid.IntRange(0, 3).Draw(t, "unset") == 0) {
+		if whole && (!p.t.exists || rapid.Bool().Draw(t, "wholeSet")) && (!p.t.fd.IsMap() || supportedMapKey(p.t.fd)) {
+			// the whole repeated / map field is replaced or inserted as one LIST / MAP node
+			op.Kind = "set"
+			tmp := dynamicpb.NewMessage(p.t.fd.ContainingMessage())
+			for tries := 0; tries < 20 && !tmp.Has(p.t.fd); tries++ {
+				g := pmodel.GenMessage(t, p.t.fd.ContainingMessage(), pmodel.MsgOpts{MaxDepth: 1, MaxElems: 3, FillAll: true})
+				if g.Has(p.t.fd) {
+					tmp.Set(p.t.fd, g.Get(p.t.fd))
+				}
+			}
+			if !tmp.Has(p.t.fd) {
+				continue
+			}
+			op.New = NewVal{Whole: pmodel.Marshal(tmp)}
+		} else if whole || (p.t.exists && rapid.IntRange(0, 3).Draw(t, "unset") == 0) {
 			op.Kind = "unset"
 			if !p.t.exists {
 				continue
@@ -916,7 +956,7 @@ func genSetMany(t *rapid.T, model *dynamicpb.Message, ps []pos) (Op, bool) {
 
 var Prop = pbt.Register(pbt.Prop[Case]{
 	Name: "TestProtoEdits",
-	Rule: "model-based history: generated proto3 schema + reference-encoded message, then 1..8 SetByPath/UnsetByPath operations drawn against the evolving reference message (existing scalars, message fields, packed/unpacked list elements, map values at depth <= 3, insertion of absent fields / new map keys / index == len, unsetting fields, whole lists/maps, elements and keys; replacement sizes around 127/128 and empty); after every step the bytes must be accepted by protobuf-go and equal the model with the same edit applied, and PathNode.Load(lazy and recursive)+Marshal of every intermediate state must decode to the same message; non-trivial = >= 2 successful edits with one at path depth >= 3",
+	Rule: "model-based history: generated proto3 schema + reference-encoded message, then 1..8 SetByPath/UnsetByPath operations drawn against the evolving reference message (existing scalars, message fields, packed/unpacked list elements, map values at depth <= 3, insertion of absent fields / new map keys / index == len, whole repeated and map fields replaced or inserted as one LIST / MAP node, unsetting fields, whole lists/maps, elements and keys; replacement sizes around 127/128 and empty); after every step the bytes must be accepted by protobuf-go and equal the model with the same edit applied, and PathNode.Load(lazy and recursive)+Marshal of every intermediate state must decode to the same message; non-trivial = >= 2 successful edits with one at path depth >= 3",
 	Gen: func(t *rapid.T) Case {
 		sc := pmodel.GenSchema(t, pmodel.GenOpts{KeyKinds: pmodel.SupportedKeyKinds, MaxFields: 5})
 		comp, err := pmodel.Compile(sc.Render(), sc.Main)
@@ -932,3 +972,11 @@ var Prop = pbt.Register(pbt.Prop[Case]{
 })
 
 func TestProtoEdits(t *testing.T) { pbt.Run(t, Prop) }
+
+func supportedMapKey(fd protoreflect.FieldDescriptor) bool {
+	switch fd.MapKey().Kind() {
+	case protoreflect.StringKind, protoreflect.Int32Kind, protoreflect.Int64Kind, protoreflect.Uint32Kind, protoreflect.Uint64Kind:
+		return true
+	}
+	return false
+}
